@@ -1012,13 +1012,23 @@ struct QuoteTraitParams<'a> {
 fn get_quote_trait_params<'a>(input: &DataType, ctx: &'a ImplContext) -> QuoteTraitParams<'a> {
     let mut impl_gens = input.get_generics().clone();
 
+    // Parameter defaults are not allowed on impl headers
+    for param in impl_gens.params.iter_mut() {
+        match param {
+            GenericParam::Type(t) => { t.eq_token = None; t.default = None; },
+            GenericParam::Const(c) => { c.eq_token = None; c.default = None; },
+            _ => ()
+        }
+    }
+
     let these_lts: Vec<&Lifetime> = input.get_generics().params.iter().filter_map(|g| match g {
         GenericParam::Lifetime(l) => Some(&l.lifetime),
         _ => None
     }).collect();
 
+    // 'static and '_ are not lifetime parameters: they are neither declared nor outlived by 'o2o
     let those_lts: Vec<&Lifetime> = ctx.struct_attr.ty.generics.as_ref().map(|g| g.args.iter().filter_map(|g| match g {
-        GenericArgument::Lifetime(l) => Some(l),
+        GenericArgument::Lifetime(l) if l.ident != "static" && l.ident != "_" => Some(l),
         _ => None
     }).collect()).unwrap_or_default();
 
@@ -1026,21 +1036,25 @@ fn get_quote_trait_params<'a>(input: &DataType, ctx: &'a ImplContext) -> QuoteTr
         if ctx.kind.is_from() { these_lts } else { those_lts.clone() }
     ).unwrap_or_default();
 
+    // Lifetime parameters must be declared before type and const parameters
+    let mut lt_count = impl_gens.params.iter().filter(|param| matches!(param, GenericParam::Lifetime(_))).count();
+
     for lt in those_lts {
         let missing_lt = impl_gens.params.iter().all(|param| {
             if let GenericParam::Lifetime(param) = param {
                 &param.lifetime != lt
-            } else { false }
+            } else { true }
         });
 
         if missing_lt {
             let gen = GenericArgument::Lifetime(lt.clone());
-            impl_gens.params.push(parse_quote!(#gen));
+            impl_gens.params.insert(lt_count, parse_quote!(#gen));
+            lt_count += 1;
         }
     }
 
     if !ref_lts.is_empty() {
-        impl_gens.params.push(parse_quote!('o2o: #( #ref_lts )+*));
+        impl_gens.params.insert(lt_count, parse_quote!('o2o: #( #ref_lts )+*));
     }
 
     QuoteTraitParams { 
@@ -1049,7 +1063,7 @@ fn get_quote_trait_params<'a>(input: &DataType, ctx: &'a ImplContext) -> QuoteTr
         inner_attr: ctx.struct_attr.inner_attribute.as_ref(), 
         dst: ctx.dst_ty, 
         src: ctx.src_ty, 
-        these_gens: input.get_generics().to_token_stream(),
+        these_gens: input.get_generics().split_for_impl().1.to_token_stream(),
         those_gens: ctx.struct_attr.ty.generics.to_token_stream(),
         impl_gens: impl_gens.to_token_stream(), 
         where_clause: input.get_attrs().where_attr(&ctx.struct_attr.ty).map(|x| {
